@@ -205,7 +205,7 @@ def run(ctx):
         if clause.startswith("machinery:"):
             raise tlc.MachineryError("case rejected by the trace specification: %s plan=%s"
                                      % (clause, json.dumps(p)))
-        if dr:
+        if dr and not p.get("short"):      # the design predicts outcomes of VALID stacks only
             drift += 1
             ctx.note_drift("design:SliceWindowOutcome", {"code": p["code"], "insize": p["insize"],
                                                          "outcome": res["outcome"]})
